@@ -3,22 +3,88 @@ EVAL = 'yash-arith/src/eval.rs'
 AST = 'yash-arith/src/ast.rs'
 TOKEN = 'yash-arith/src/token.rs'
 
-ERR = 'Error<E1, E2>'
+ENV_SPEC = {
+    'trait_extra': '''
+    /// ghost view of the variable store (assumed contract on implementors)
+    spec fn vars(&self) -> Map<Seq<char>, Seq<char>>;
+    spec fn get_fails(&self, name: Seq<char>) -> bool;
+    spec fn assign_fails(&self, name: Seq<char>, value: Seq<char>) -> bool;
+''',
+    'methods': {
+        'get_variable': {
+            'ret': 'res',
+            'ensures': [
+                'self.get_fails(name@) <==> res is Err',
+                'res is Ok ==> (match res->Ok_0 { Some(v) => self.vars().contains_key(name@) && v@ == self.vars()[name@], None => !self.vars().contains_key(name@) })',
+            ],
+        },
+        'assign_variable': {
+            'ret': 'res',
+            'ensures': [
+                'old(self).assign_fails(name@, value@) <==> res is Err',
+                'res is Ok ==> final(self).vars() == old(self).vars().insert(name@, value@)',
+                'res is Err ==> final(self).vars() == old(self).vars()',
+                'forall|n: Seq<char>| final(self).get_fails(n) == old(self).get_fails(n)',
+                'forall|n: Seq<char>, v: Seq<char>| final(self).assign_fails(n, v) == old(self).assign_fails(n, v)',
+            ],
+        },
+    },
+}
+
+MOD_HEAD = '''    use vstd::prelude::*;
+    use std::ops::Range;
+    use std::fmt::Display;
+    use vstd::arithmetic::power2::pow2;
+'''
 
 UNIT = {
     'name': 'arith_eval',
     'property': 'C03',
     'rlimit': 60,
-    'uses': [
-        'use std::ops::Range;',
-        'use vstd::arithmetic::power2::pow2;',
-    ],
-    'prelude': ['prelude.rs'],
+    'uses': [],
     'items': [
+        ('@file', 'prelude_math.rs'),
+        # ---- types and operator tables -------------------------------------------------
+        ('@raw', 'pub mod ty {\n' + MOD_HEAD),
         (TOKEN, ['enum Value']),
+        (TOKEN, ['impl Display for Value'], {'attrs': ['#[verifier::external]']}),
+        (TOKEN, ['enum Term']),
+        (TOKEN, ['enum Operator']),
+        (AST, ['enum PrefixOperator']),
+        (AST, ['enum PostfixOperator']),
         (AST, ['enum BinaryOperator']),
+        (AST, ['enum Associativity'], {'vis': 'pub'}),
+        (AST, ['impl Operator', 'fn as_prefix'], {'vis': 'pub'}),
+        (AST, ['impl Operator', 'fn as_postfix'], {'vis': 'pub'}),
+        (AST, ['impl Operator', 'fn as_binary'], {'vis': 'pub'}),
+        (AST, ['impl Operator', 'fn precedence'], {'vis': 'pub'}),
+        ('yash-arith/src/env.rs', ['trait Env'], ENV_SPEC),
         (EVAL, ['enum EvalError']),
         (EVAL, ['struct Error']),
+        ('@raw', '}\n'),
+        ('@file', 'prelude_envlem.rs'),
+        # ---- evaluation ------------------------------------------------------------------
+        ('@raw', 'pub mod fx {\n' + MOD_HEAD + '    use super::math::*;\n    use super::ty::*;\n'),
+        ('@broadcast', ['super::lem::lemma_rust_div', 'super::lem::lemma_rust_rem', 'super::lem::lemma_tdiv_range',
+                        'super::lem::lemma_trem_range', 'super::lem::lemma_i64_shl', 'super::lem::lemma_i64_shr',
+                        'super::envlem::axiom_value_to_string', 'super::envlem::lemma_i64_not']),
+        ('@file', 'prelude_sem.rs'),
+        ('@file', 'prelude_env.rs'),
+        (EVAL, ['fn expand_variable'], {
+            'ret': 'res',
+            'ensures': ['value_contract(var_value(*env, name@), res)'],
+        }),
+        (EVAL, ['fn into_value'], {
+            'ret': 'res',
+            'ensures': ['value_contract(term_value(*env, term), res)'],
+        }),
+        (EVAL, ['fn require_variable'], {
+            'ret': 'res',
+            'ensures': [
+                'term is Value ==> res is Err',
+                'term is Variable ==> res is Ok && res->Ok_0.0 == term->name && res->Ok_0.1 == term->location',
+            ],
+        }),
         (EVAL, ['fn unwrap_or_overflow'], {
             'ret': 'res',
             'ensures': [
@@ -26,6 +92,22 @@ UNIT = {
                 'checked_computation is None ==> res is Err',
             ],
             'closures': {0: {'ret': 'e: Error<E1, E2>', 'ensures': ['true']}},
+        }),
+        (EVAL, ['fn assign'], {
+            'ret': 'res',
+            'ensures': [
+                'assign_contract(*old(env), *final(env), name@, value->0, res, value->0)',
+                'forall|n: Seq<char>| final(env).get_fails(n) == old(env).get_fails(n)',
+                'forall|n: Seq<char>, v: Seq<char>| final(env).assign_fails(n, v) == old(env).assign_fails(n, v)',
+            ],
+        }),
+        (EVAL, ['fn apply_prefix'], {
+            'ret': 'res',
+            'ensures': ['prefix_contract(*old(env), *final(env), term, operator, res)'],
+        }),
+        (EVAL, ['fn apply_postfix'], {
+            'ret': 'res',
+            'ensures': ['postfix_contract(*old(env), *final(env), term, operator, res)'],
         }),
         (EVAL, ['fn binary_result'], {
             'ret': 'res',
@@ -53,6 +135,10 @@ UNIT = {
                     'ensures': ['keep == (*result_r >= 0 && (*result_r >> rhs) == lhs)']},
             },
         }),
+        (EVAL, ['fn apply_binary'], {
+            'ret': 'res',
+            'ensures': ['binary_contract(*old(env), *final(env), lhs, rhs, operator, res)'],
+        }),
+        ('@raw', '}\n'),
     ],
-    'postlude': [],
 }
